@@ -142,6 +142,22 @@ def run_job(prog, job):
 
 def violation(ctx, prop, role, model, detail, extra=None):
     bs = ctx['bs']
+    if not (extra and extra.get('known_id')) and model is not None and model != 'unknown' and ctx.get('cur_leaf') is not None:
+        # a path-level violation reported without going through obligation(): if known findings with an input class
+        # apply, prefer a witness outside every class (a different violation); only if the whole path lies inside
+        # the classes is it attributed to the known finding
+        ks = known_excuses(ctx, prop, role)
+        if ks:
+            P = ctx['P']
+            terms = [excuse_term(ctx, k) for k in ks]
+            m2 = P.feasible(z3.Not(z3.Or(*terms)))
+            if m2 is not None:
+                model = m2
+            else:
+                for k, t in zip(ks, terms):
+                    if z3.is_true(model.eval(t, model_completion=True)):
+                        extra = dict(extra or {}, known_id=k.get('id'))
+                        break
     w = model_bytes(model, bs).hex() if model is not None and model != 'unknown' else None
     v = {'property': prop, 'role': role, 'witness': w, 'len': ctx['L'], 'detail': detail, 'job': ctx['job']}
     if extra:
@@ -683,6 +699,14 @@ def me_of(ctx, df):
 def c10(ctx, l, sig):
     prog, L, bs, P, A = ctx['prog'], ctx['L'], ctx['bs'], ctx['P'], ctx['A']
     fr = ok_frame(l)
+    if fr is None and l.kind == 'return' and L >= 14:
+        # every type code / BDS code selects a layout: an extended squitter or Comm-B reply of full length is only
+        # rejected for the operational-status reserved-bits / version condition (shared with C02)
+        dfb = z3.LShR(bs[0], 3)
+        es = z3.Or(dfb == 17, dfb == 18, dfb == 20, dfb == 21)
+        if P.feasible(es) is not None:
+            obligation(ctx, 'C10', '%s:extended-squitter-rejected' % sig, z3.Or(z3.Not(es), opstatus_reject_cond(bs)),
+                       'a DF17/18/20/21 frame of full length is rejected although its type / BDS code selects a layout')
     if fr is None or L < 14:
         return
     df = A.f(fr, 'df')
@@ -896,8 +920,8 @@ def c07_calculate(ctx, l, sig, av, me, ob):
         ob('calculate-vrate', z3.Implies(both, to_bv(vrate) == want_vrate), 'vertical rate differs from (raw-1)*64 with sign')
         # heading = wrap(atan2(E, N) * 360/2pi) as f32, speed = hypot(E, N): locate the uninterpreted applications in
         # the code's terms, compare their arguments with the reference components, then compare the shape around them
-        at = find_app(to_fp(heading), 'libm_atan2_f64')
-        hy = find_app(to_fp(speed), 'libm_hypot_f64')
+        at = find_app(to_fp(heading), ('libm_atan2_f64', 'stdm_atan2_f64'))
+        hy = find_app(to_fp(speed), ('libm_hypot_f64', 'stdm_hypot_f64'))
         if at is None or hy is None:
             violation(ctx, 'C07', '%s:calculate-shape' % sig, P.feasible(both), 'heading/speed are not computed with atan2/hypot')
             continue
@@ -914,7 +938,7 @@ def c07_calculate(ctx, l, sig, av, me, ob):
 
 
 def find_app(t, name):
-    """first application of the function `name` inside term t (DFS)"""
+    """first application of one of the functions `name` (tuple of names) inside term t (DFS)"""
     seen = set()
     stack = [t]
     while stack:
@@ -924,7 +948,7 @@ def find_app(t, name):
             continue
         seen.add(i)
         if z3.is_app(x):
-            if x.decl().name() == name:
+            if x.decl().name() in name:
                 return x
             stack.extend(x.children())
     return None
